@@ -1,7 +1,7 @@
 """C06 - inline and dynamic constraints bind to exactly one call and to the right object."""
 import copy
 
-from ..core import hyp
+from ..core import hyp, findings
 from ..core.util import reset_library, cjson, exc_sig, import_vsc
 from ..model import sem, gen, flat, render
 
@@ -33,6 +33,19 @@ FIELDS = [
 prefix_expr, prefix_stmt = sem.prefix_expr, sem.prefix_stmt
 
 
+@findings.predicate("c06_element_dynamic_block_with_foreach")
+def pred_elem_dyn_foreach(case):
+    """a holder call references, through a list element, a dynamic block that contains a foreach"""
+    fe = set(b["name"] for b in case["cls"]["dyn"] if any(s_[0] == "foreach" for s_ in b["stmts"]))
+    for op in case["ops"]:
+        if op[0] == "hcall":
+            for st in op[2]:
+                t = cjson(st)
+                if any(('.%s"' % n) in t for n in fe):
+                    return True
+    return False
+
+
 def gen_inline(d, g):
     out = []
     for _ in range(d.randint(1, 3)):
@@ -56,19 +69,27 @@ def gen_inline(d, g):
 def cases(d):
     g = gen.G(d, FIELDS, {}, mul_max_w=3)
     cls = {"name": "T", "fields": copy.deepcopy(FIELDS),
+           "lists": [{"name": "nl", "elem": {"kind": "bit", "w": 3, "signed": False}, "mode": "nonrand"}],
            "blocks": [{"name": "c0", "stmts": [g.field_stmt(1) for _ in range(d.randint(0, 2))]}],
            "dyn": [{"name": "d0", "stmts": [g.field_stmt(0) for _ in range(d.randint(1, 2))]},
                    {"name": "d1", "stmts": [g.field_stmt(0) for _ in range(d.randint(1, 2))]}]}
     # make the dynamic blocks instance-sensitive most of the time
     if d.chance(70):
         cls["dyn"][0]["stmts"].append(["expr", ["bin", d.choice(["<", "<=", "!="]), ["f", "a"], ["f", "k"]]])
+    # a foreach over the instance's (non-random, editable) list inside a dynamic block
+    if d.chance(45):
+        cls["dyn"][1]["stmts"].append(["foreach", "nl", "i", None,
+                                       [["expr", ["bin", "!=", ["f", d.choice(["a", "b"])], ["el", "nl", ["iv", "i"], None]]]]])
     ops = [["new", d.randint(0, 7)]]
     n = 1
     for _ in range(d.randint(2, 10)):
         r = d.randint(0, 99)
-        if n < 4 and r < 25:
+        if n < 4 and r < 22:
             ops.append(["new", d.randint(0, 7)])
             n += 1
+        elif r < 32:
+            ops.append(["nl", d.randint(0, n - 1), [d.randint(0, 7) for _ in range(d.randint(1, 3))]] if d.chance(50)
+                       else ["nlappend", d.randint(0, n - 1), d.randint(0, 7)])
         elif r < 40:
             ops.append(["call", d.randint(0, n - 1), "randomize", None, d.seed()])
         elif r < 85 or n < 2:
@@ -77,9 +98,12 @@ def cases(d):
             # holder call: instances i and j become elements of a holder's list; reference element dynamic blocks
             i, j = d.sample(list(range(n)), 2)
             e = d.randint(0, 1)
-            inl = [["expr", ["dyn", "arr[%d].%s" % (e, d.choice(["d0", "d1"]))]]]
+            has_fe = any(s_[0] == "foreach" for s_ in cls["dyn"][1]["stmts"])
+            # (a block holding a foreach, reached through an element, is a recorded finding: kept as a small class)
+            pick = (lambda: "d0" if (has_fe and not d.chance(12)) else d.choice(["d0", "d1"]))
+            inl = [["expr", ["dyn", "arr[%d].%s" % (e, pick())]]]
             if d.chance(40):
-                inl.append(["expr", ["not", ["dyn", "arr[%d].d1" % (1 - e)]]])
+                inl.append(["expr", ["not", ["dyn", "arr[%d].%s" % (1 - e, "d0" if has_fe else "d1")]]])
             ops.append(["hcall", [i, j], inl, d.seed()])
     return {"cls": cls, "ops": ops, "sel": [d.randint(0, 1 << 16) for _ in range(6)]}
 
@@ -118,8 +142,12 @@ def has_dyn_under_op(stmts):
 def run_case(case):
     vsc = import_vsc()
     cls = case["cls"]
+    if not cls.get("lists"):
+        cls = dict(cls, lists=[{"name": "nl", "elem": {"kind": "bit", "w": 3, "signed": False}, "mode": "nonrand"}])
+        case = dict(case, cls=cls)
     prog = {"enums": {}, "classes": [cls]}
     types = {f["name"]: f for f in cls["fields"]}
+    types["nl[]"] = {"kind": "bit", "w": 3, "signed": False}
     rf = [f for f in cls["fields"] if f["rand"]]
     names = [f["name"] for f in rf]
     class_stmts = [s for b in cls["blocks"] for s in b["stmts"]]
@@ -136,6 +164,7 @@ def run_case(case):
         return [V("library_exception", "construction: " + exc_sig(e), case, repr(e))], info
     objs = []
     kvals = []
+    lvals = []
     prev_inline = {}
     inline_sets = {}
     for step, op in enumerate(case["ops"]):
@@ -144,16 +173,34 @@ def run_case(case):
             try:
                 o = ns["T"]()
                 o.k = op[1]
+                o.nl.append(op[1] % 8)
                 objs.append(o)
                 kvals.append(op[1])
+                lvals.append([op[1] % 8])
             except Exception as e:
                 reset_library()
                 return [V("library_exception", "construction: " + exc_sig(e), case, where + " raised %r" % (e,))], info
             continue
+        if op[0] in ("nl", "nlappend"):
+            i = op[1]
+            try:
+                if op[0] == "nl":
+                    objs[i].nl = list(op[2])
+                    lvals[i] = list(op[2])
+                else:
+                    objs[i].nl.append(op[2])
+                    lvals[i].append(op[2])
+            except Exception as e:
+                reset_library()
+                return [V("library_exception", "list edit: " + exc_sig(e), case, where)], info
+            info["list_edits"] = info.get("list_edits", 0) + 1
+            continue
         if op[0] == "call":
             _, i, kind, inline, seed = op
             o = objs[i]
-            env0 = {"a": int(o.a), "b": int(o.b), "k": kvals[i]}
+            env0 = {"a": int(o.a), "b": int(o.b), "k": kvals[i], "#nl": len(lvals[i])}
+            for j_, v_ in enumerate(lvals[i]):
+                env0["nl[%d]" % j_] = v_
             stmts = class_stmts + (inline or [])
             allv, sols = flat.enumerate_solutions(types, rf, env0, stmts, dyn)
             st, exc = flat.do_call(ns, o, kind, inline, seed)
@@ -227,6 +274,10 @@ def run_case(case):
                     if f["rand"]:
                         hrf.append(ff)
                 env0[p + "a"], env0[p + "b"], env0[p + "k"] = int(objs[src].a), int(objs[src].b), kvals[src]
+                htypes[p + "nl[]"] = {"kind": "bit", "w": 3, "signed": False}
+                env0["#" + p + "nl"] = len(lvals[src])
+                for j_, v_ in enumerate(lvals[src]):
+                    env0["%snl[%d]" % (p, j_)] = v_
                 hstmts += [prefix_stmt(s, p) for s in class_stmts]
                 for dn, ds in dyn.items():
                     hdyn[p + dn] = [prefix_stmt(s, p) for s in ds]
@@ -263,6 +314,11 @@ def body(case, acc):
         acc.label("op:" + op[0])
     if info.get("dyn_op"):
         acc.label("dynamic reference under | or ~")
+    if any(s_[0] == "foreach" for b in case["cls"]["dyn"] for s_ in b["stmts"]):
+        acc.label("foreach inside a dynamic block")
+    acc.label("list edits", info.get("list_edits", 0))
+    if pred_elem_dyn_foreach(case):
+        acc.label("known-finding shape: element dynamic block with foreach")
     return vios
 
 
